@@ -394,6 +394,36 @@ def rp_refetch_path(ctx, alg):
                               "after the relying party had to fetch the provider's key set again, an ID Token was %s although %s" %
                               ("accepted" if ok else "refused", "its %s differs" % lab if not want else "everything matches"), case)
 
+    # the leeway the application passes to the relying-party entry point is the leeway that is applied: the clock moves
+    # around exp and iat, the leeway is 0, small, the default (120 s, also when omitted) or large
+    real = time.time
+    try:
+        for flavour in ("sync", "async"):
+            for lw in (0, 1, 30, 120, "omitted", 300):
+                eff = 120 if lw == "omitted" else lw
+                for dt in (-300 - 1, -eff - 1, -eff, -1, 0, 600 - 1, 600, 600 + 1, 600 + eff, 600 + eff + 1, 600 + 119, 600 + 121, 600 + 301):
+                    time.time = lambda dt=dt: now + dt
+                    rp = SyncRP("rp1") if flavour == "sync" else AsyncRP("rp1")
+                    rp.server_metadata["jwks"] = {"keys": [jwk_b]}
+                    kw = {} if lw == "omitted" else {"leeway": lw}
+                    try:
+                        if flavour == "sync":
+                            rp.parse_id_token({"id_token": tok_b, "access_token": at}, "n1", **kw)
+                        else:
+                            asyncio.run(rp.parse_id_token({"id_token": tok_b, "access_token": at}, "n1", **kw))
+                        ok = True
+                    except (JoseError, ValueError):
+                        ok = False
+                    want = (now + 600 >= now + dt - eff) and (now <= now + dt + eff)      # exp within, iat within
+                    case = {"rp_leeway": alg, "flavour": flavour, "leeway": lw, "clock_offset": dt}
+                    ctx.case(case, ("rp-leeway", alg, flavour, lw, dt), "rp-leeway:%s:%s" % (flavour, "accept" if ok else "refuse"))
+                    if ok != want:
+                        ctx.violation("C13:rp-leeway:%s:%s" % (flavour, "accepted" if ok else "refused"),
+                                      "relying party %s an ID Token that is %s the window of exp/iat widened by the leeway it was given" %
+                                      ("accepted" if ok else "refused", "outside" if not want else "inside"), case)
+    finally:
+        time.time = real
+
 
 def check_combo(ctx, rt, alg, nonce, extra, aud_as_text=False):
     AUD_AS_TEXT[0] = aud_as_text
